@@ -114,6 +114,17 @@ def r1_bounded_start(ctx, rep, R='C06.R1'):
               'a thread can be dropped from %s while it may still be alive (its child would not '
               'count against the bound)' % running, key='running:removal', func=fi.qualname,
               where=ctx.where(fi, rem[0] if rem else fi.node))
+    # ... and the element that leaves is the one that was tested
+    for r in rem:
+        verdict, why = _removed_is_tested(fi, r, running)
+        if verdict is None:
+            rep.undecide(R, 'running:removal-target', 'cannot relate the element removed by %s to the '
+                         'thread whose is_alive() was tested (%s)' % (norm(r), why))
+            continue
+        rep.check(verdict, R, 'the thread removed from %s is the one found not alive' % running,
+                  '%s -- a thread that is still running (whose layer has not reported yet) can be '
+                  'dropped, or the wrong index deleted' % why, key='running:removal-target',
+                  func=fi.qualname, where=ctx.where(fi, r))
     # main loop condition
     outer = None
     node = wl
@@ -130,6 +141,83 @@ def r1_bounded_start(ctx, rep, R='C06.R1'):
     rep.check(okm, R, 'main loop: while %s or %s' % (ready, running),
               'the polling loop can end while threads are still ready or running',
               key='main-loop', func=fi.qualname, where=ctx.where(fi, outer or fi.node))
+
+
+def _removed_is_tested(fi, r, running):
+    """(True/False/None, reason): does the removal *r* from the list *running* take out exactly the
+    element whose is_alive() guards it?  Index-based removal inside a loop over the same list is
+    only right when later indices are not used after a deletion (descending order, or the loop is
+    left at once)."""
+    from .common import iter_source
+    if isinstance(r, ast.Assign):
+        return True, 'rebuilt by filtering'
+    lits = path_literals(r, fi.node)
+    alive = [e for e, pos in lits if isinstance(e, ast.Call) and isinstance(e.func, ast.Attribute)
+             and e.func.attr == 'is_alive' and pos is False]
+    if len(alive) != 1:
+        return None, 'no single is_alive() guard'
+    tested = alive[0].func.value
+    loop = None
+    for p in _parents(r, fi.node):
+        if isinstance(p, (ast.For, ast.While)):
+            loop = p
+            break
+    if isinstance(r, ast.Call) and r.func.attr == 'remove':
+        ok = bool(r.args) and norm(r.args[0]) == norm(tested)
+        return ok, 'removes %s, tested %s' % (norm(r.args[0]) if r.args else '?', norm(tested))
+    if isinstance(r, ast.Call) and r.func.attr == 'clear':
+        return False, 'clears the whole list'
+    idx = r.targets[0].slice if isinstance(r, ast.Delete) else (r.args[0] if r.args else None)
+    if idx is None:
+        return False, 'pop() without index removes the last element, not the tested one'
+    if not isinstance(loop, ast.For):
+        return None, 'index removal outside a for loop'
+    # the loop must pair idx with the tested element: enumerate over the list (or a copy of it)
+    it = loop.iter
+    descending = False
+    while isinstance(it, ast.Call) and isinstance(it.func, ast.Name) and it.func.id in ('list', 'tuple', 'reversed') \
+            and len(it.args) == 1 and not it.keywords:
+        if it.func.id == 'reversed':
+            descending = not descending
+        it = it.args[0]
+    tgt = loop.target
+    if isinstance(it, ast.Call) and isinstance(it.func, ast.Name) and it.func.id == 'enumerate' and \
+            it.args and isinstance(tgt, ast.Tuple) and len(tgt.elts) == 2:
+        src = it.args[0]
+        while isinstance(src, ast.Call) and isinstance(src.func, ast.Name) and \
+                src.func.id in ('list', 'tuple') and len(src.args) == 1:
+            src = src.args[0]
+        if isinstance(src, ast.Subscript) and isinstance(src.slice, ast.Slice) and \
+                src.slice.lower is None and src.slice.upper is None and src.slice.step is None:
+            src = src.value
+        if isinstance(src, ast.Call) and isinstance(src.func, ast.Attribute) and src.func.attr == 'copy':
+            src = src.func.value
+        if dotted(src) != running:
+            return None, 'the loop does not enumerate %s' % running
+        if norm(tgt.elts[0]) != norm(idx) or norm(tgt.elts[1]) != norm(tested):
+            return False, 'the deleted index %s / tested element %s are not the pair of the loop ' \
+                'target %s' % (norm(idx), norm(tested), norm(tgt))
+        if descending:
+            return True, 'descending indices'
+        # ascending: fine only if the loop is left right after the deletion
+        body = _enclosing_block(r, loop)
+        if body is not None:
+            i = [k for k, st in enumerate(body) if any(x is r for x in ast.walk(st))][0]
+            if i + 1 < len(body) and isinstance(body[i + 1], ast.Break):
+                return True, 'loop left after the deletion'
+        return False, 'indices are enumerated in ascending order over %s while elements are ' \
+            'deleted from it: after the first deletion every later index is off by one' % running
+    return None, 'unrecognised iteration %s' % norm(loop.iter)
+
+
+def _enclosing_block(node, loop):
+    for p in ast.walk(loop):
+        for fld in ('body', 'orelse'):
+            blk = getattr(p, fld, None)
+            if isinstance(blk, list) and any(st is node or (isinstance(st, ast.Expr) and st.value is node)
+                                             for st in blk):
+                return blk
+    return None
 
 
 def r3_in_order_flush(ctx, rep, R='C06.R3'):
@@ -174,6 +262,14 @@ def r3_in_order_flush(ctx, rep, R='C06.R3'):
     if okc:
         lp = [p for p in _parents(muts[0], fi.node) if isinstance(p, ast.For)]
         okc = bool(lp) and iterates_in_order(lp[0].iter, 'layers')
+        from .common import param_untouched
+        touched = param_untouched(fi.node, 'layers')
+        rep.check(not okc or touched is None, R, 'the layers handed to resume_tests are used in the order given',
+                  'the list of layers handed to resume_tests is re-bound or re-ordered (%s) before the '
+                  'results are created from it: the output blocks no longer appear in the sequential '
+                  'layer order' % (norm(getattr(touched, '_parent', touched)) if touched is not None else ''),
+                  key='flush:layer-order', func=fi.qualname,
+                  where=ctx.where(fi, touched if touched is not None else fi.node))
     rep.check(okc, R, 'cursor = next(iter(results)); results appended in the order of the layers',
               'the flush cursor does not walk the results in layer order', key='flush:cursor',
               func=fi.qualname, where=ctx.where(fi, w))
